@@ -94,6 +94,10 @@ func c06Values(ctx *fw.Ctx, stream string, n int, nrand int) []*big.Int {
 	for _, u := range []uint64{0, 1, 2, 1<<32 - 1, 1 << 32, 1<<32 + 1, P - (1 << 32), 1<<64 - 1<<32 - 1, 1<<64 - 1<<32, P - 1, P, P + 1, P + 2, 1<<64 - 1} {
 		add(bu(u))
 	}
+	add(new(big.Int).Sub(pow2(63), big.NewInt(1)))
+	add(pow2(63))
+	add(new(big.Int).Add(new(big.Int).Lsh(big.NewInt(0x7FFFFFFF), 32), big.NewInt(1)))
+	add(new(big.Int).Lsh(big.NewInt(0x7FFFFFFF), 32))
 	add(pow2(64))
 	add(new(big.Int).Add(pow2(64), big.NewInt(1)))
 	add(new(big.Int).Add(pow2(64), bigP))
